@@ -13,7 +13,7 @@ func init() { registry["C10"] = propC10 }
 
 func propC10() *Property {
 	return &Property{
-		ID: "C10",
+		ID:          "C10",
 		Explanation: "Structural clauses of collection paging only. Decided: (R1) the walk is bounded: the only recursion of harvestWithEmptyCount is guarded by the false edge of `emptyCount > 3`, the counter is incremented exactly on the empty-page edge, and every early return delivers exactly one failure item with a nil continuation; (R2) 'consecutive' means reset: on every path that does not increment the counter, the counter handed to the next page was last assigned a constant (it does not depend on the incoming counter); (R3) slot/source agreement and order: element k of this page is stored at slot k from c.elements[k+startingPoint] (difference of the linear index forms is exactly startingPoint), the result is this page's items followed by the later pages', and the next page is asked for amount-amountFromThisPage items from offset 0; (R4) continuation shape: the page names itself as continuation only under length > amount+startingPoint with next offset amount+startingPoint, otherwise it forwards the deeper result or ends with nil. NOT decided: that these pieces compose to 'every item exactly once, in order' for every layout and chunking, prefix-of-truth on cyclic chains, and the unsigned arithmetic of amountFromThisPage (value-level reasoning).",
 		Assumptions: []string{"goroutine fan-out in harvest is race-free (C08.R5)"},
 		Rules: []Rule{
@@ -153,6 +153,7 @@ func analyseHarvest(P *Program) *harvestShape {
 // lengthCellLoad: v is a load of the local `length` cell whose stores are the
 // constant 0 and uint(len(c.elements)).
 func isPageLengthLoad(v ssa.Value) bool {
+	v = unwrapField(v)
 	u, ok := v.(*ssa.UnOp)
 	if !ok || u.Op != token.MUL {
 		return false
@@ -547,6 +548,7 @@ func c10R4(c *Ctx) {
 
 // cellOf: the local variable (cell) a value is loaded from, nil otherwise.
 func cellOf(v ssa.Value) *ssa.Alloc {
+	v = unwrapField(v)
 	if u, ok := v.(*ssa.UnOp); ok && u.Op == token.MUL {
 		if a, ok := resolveCell(u.X).(*ssa.Alloc); ok {
 			return a
